@@ -485,6 +485,18 @@ class ObjOps(ToolOps):
         return super().callee_unit(call, env)
 
     def visit(self, node, env, ev):
+        if node.kind == "del":
+            # ``del obj.field``: the field is gone (reading it raises AttributeError from here on)
+            targets = node.info.get("targets") or (node.ast.targets if isinstance(node.ast, ast.Delete) else [])
+            for t in targets:
+                base = ev.eval(t.value, env) if isinstance(t, ast.Attribute) else None
+                if base is not None and self._is_obj(base):
+                    heap = dict(env["@heap"])
+                    clsfq, fields = heap[base[1]]
+                    fields = dict(fields)
+                    fields.pop(self._field_name(clsfq, t.attr), None)
+                    heap[base[1]] = (clsfq, fields)
+                    env["@heap"] = heap
         if node.kind == "call":
             call = node.ast
             f = call.func
